@@ -450,6 +450,33 @@ func c11ConcurrentPrivate(c *core.Ctx, k *core.Case) {
 	}
 }
 
+// oracle "blind-wraps": I=[overflow0, sqn0, wraps, extra, touch, order] — wraps x 2^24 +
+// extra increments with no read in between (touch=1: the sequence number is re-set to
+// its current value every 2^20 increments, which changes nothing), then one read of
+// all views: the value passed through 0 several times since anybody looked at it.
+func c11BlindWraps(c *core.Ctx, k *core.Case) {
+	var cnt security.Count
+	cnt.Set(uint16(k.I[0]), uint8(k.I[1]))
+	model := uint32(k.I[0])<<8 | uint32(k.I[1])
+	total := k.I[2]<<24 + k.I[3]
+	for i := int64(0); i < total; i++ {
+		cnt.AddOne()
+		model = (model + 1) & 0xffffff
+		if k.I[4] == 1 && i&(1<<20-1) == 0 {
+			cnt.SetSQN(uint8(model))
+		}
+		if i&(1<<24-1) == 0 {
+			c.J.Tick()
+		}
+	}
+	c.Eval(total)
+	c.Count("blind_wrap_increments", total)
+	c.Cover("unread_wraps", fmt.Sprint(k.I[2]))
+	if msg := c11FinalRead(&cnt, int(k.I[5]), model); msg != "" {
+		c.Fail(k, "blind-wraps-mismatch", fmt.Sprintf("after Set(%#x,%#x) and %d x 2^24 + %d unread increments: %s", k.I[0], k.I[1], k.I[2], k.I[3], msg))
+	}
+}
+
 var c11RunLens = []int{1, 2, 3, 127, 128, 129, 255, 256, 257, 511, 512, 32767, 32768, 32769, 65535, 65536, 65537, 131071, 131072, 131073}
 
 // oracle "blind-runs": I=[overflow0, sqn0, seed, segments, mix, long] — segments of
@@ -510,7 +537,7 @@ func init() {
 			"states are reached through the public Set(overflow, sqn); the unexported field is never written directly",
 			"bits 24..31 of the internal word are unobservable and not judged",
 		},
-		Oracles: map[string]func(*core.Ctx, *core.Case){"cold-entries": coldEntries, "history": c11History, "sweep": c11Sweep, "blind-seq": c11BlindSeq, "blind-enum": c11BlindEnum, "blind-runs": c11BlindRuns, "copies": c11Copies, "concurrent-private": c11ConcurrentPrivate, "cold-concurrent": coldConcurrent},
+		Oracles: map[string]func(*core.Ctx, *core.Case){"cold-entries": coldEntries, "history": c11History, "sweep": c11Sweep, "blind-seq": c11BlindSeq, "blind-enum": c11BlindEnum, "blind-runs": c11BlindRuns, "blind-wraps": c11BlindWraps, "copies": c11Copies, "concurrent-private": c11ConcurrentPrivate, "cold-concurrent": coldConcurrent},
 		Exhaustive: func(tier string) (bool, string) {
 			return true, "the increment relation and the value/overflow/sqn identity are checked from all 2^24 states; operation sequences are sampled"
 		},
@@ -614,6 +641,25 @@ func init() {
 					c.Do(k)
 					c.NonTrivial(k.Hash())
 				}
+			}})
+		}
+		for w := 1; w <= 4; w++ {
+			w := w
+			us = append(us, core.Unit{Name: fmt.Sprintf("blind-wraps-%d", w), Weight: 10 * w, Run: func(c *core.Ctx) {
+				st := c11BlindStarts[c.R.Intn(len(c11BlindStarts))]
+				k := &core.Case{Oracle: "blind-wraps", Target: "security.Count", I: []int64{st[0], st[1], int64(w), int64(c.R.Intn(70000)), int64(w % 2), int64(c.R.Intn(4))}}
+				c.Do(k)
+				c.NonTrivial(k.Hash())
+				k = &core.Case{Oracle: "blind-wraps", Target: "security.Count", I: []int64{0xffff, int64(0xff - c.R.Intn(2)), int64(w), int64(1 + c.R.Intn(3)), int64((w + 1) % 2), int64(c.R.Intn(4))}}
+				c.Do(k)
+				c.NonTrivial(k.Hash())
+			}})
+		}
+		if tier == "thorough" {
+			// the internal word is 32 bits wide: 256 unread wraps and one more
+			us = append(us, core.Unit{Name: "blind-wraps-256", Weight: 200, Run: func(c *core.Ctx) {
+				c.Do(&core.Case{Oracle: "blind-wraps", Target: "security.Count", I: []int64{0xffff, 0xfe, 256, 5, 0, 0}})
+				c.Do(&core.Case{Oracle: "blind-wraps", Target: "security.Count", I: []int64{0x1234, 0x56, 257, 70001, 1, 2}})
 			}})
 		}
 		us = append(us, coldEntryUnits(tier, "security.Count", "count")...)
